@@ -3,7 +3,7 @@ MUST-victim-counted, MUST-reject-touches-nothing, MUST-admit-or-remove, CMP-over
 CMP-evict, SCAN-from-front, MUST-recency, MUST-evict."""
 from .core import RuleResult, CheckFailure
 from .roles import ev_is, wrapper_kind, ts_name_kind, sync_ts_fields
-from .roles import CHAN_RECV
+from .roles import CHAN_RECV, recv_types
 from .roles import named
 from .kernel import norm
 from .roles import get_roles, HASHMAP_REMOVE, DASHMAP_REMOVE
@@ -231,6 +231,11 @@ def rule_cmp_admit(ctx):
                     a, b_ = t[2], t[3]
                     okc = _cand_field(a, ('weight', 'policy_weight', 'freq')) or _cand_field(b_, ('weight', 'policy_weight', 'freq')) or \
                         (a == ('c', 5) or b_ == ('c', 5))
+                elif 'is_dirty' in fmt(t) and any(isinstance(x, tuple) and x and x[0] == 'call' and str(x[1]) in ('dashmap::DashMap::get', 'std::collections::HashMap::get')
+                                                  for x in subterms(t)):
+                    # a victim with a pending update (dirty flag of the entry the map holds for the node's key) is skipped like a missing
+                    # one: its shared weight is not the counted one (FLOW-counters: removal-of-pending-update)
+                    okc = True
                 if not okc:
                     r.instance(function=nid, unrecognised_scan_condition=fmt(t)[:80])
                     r.violate(nid, 'scan-extra-condition', fmt(t)[:60], 'the admission scan of %s branches on `%s`, which is none of: victims.weight < candidate.weight, candidate.freq < victims.freq, '
@@ -281,7 +286,10 @@ def rule_flow_admit_sums(ctx):
                             tag = v
                     if kind == 'unsync' and tag is None:
                         tag = 1   # .expect(): the miss path diverges
-                    if tag == 1:
+                    # found but skipped because an update of it is pending: not a victim
+                    from .rules_live import literals_of as _lo
+                    skipped_dirty = any(v is True and isinstance(c, tuple) and 'is_dirty' in fmt(c) and any(x == res for x in subterms(c)) for c, v in _lo(p.conds))
+                    if tag == 1 and not skipped_dirty:
                         hits.append((e, res))
             pushes = [e for e in p.events if e[0] == 'call' and str(e[1]).endswith('::push')]
             agg = row['agg']
@@ -554,18 +562,30 @@ def rule_cmp_evict(ctx):
             r.instance(function=nid, returns=fmt(ret), ok=ok)
             if not ok:
                 r.violate(nid, 'weights-to-evict', fmt(ret)[:50], 'weights_to_evict is `%s`' % fmt(ret), where=ctx.where(nid), expected='weighted_size.saturating_sub(max_capacity)')
-    # MUST-evict: unsync mutators call the eviction before their own map access
+    # MUST-evict: every unsync operation first expires, then evicts the excess, then does its own map access (on every path; the prologue may
+    # live in a helper).  Expiry first: the excess is computed from what is left once expired entries are gone.
     ev = named(ctx, 'unsync.evict_lru')
+    exp = named(ctx, 'unsync.evict_expired')
     for m in ('insert', 'get', 'contains_key', 'invalidate'):
         nid = 'unsync::cache::Cache::' + m
-        b = ctx.body(nid)
-        dom = b.dominators()
-        evb = [bi for bi, t in b.calls() if ev in prog.call_targets(b, t)[0]]
-        mapb = [bi for bi, t in b.calls() if (prog.call_targets(b, t)[1] or '').startswith('std::collections::HashMap::')]
-        ok = bool(evb) and all(any(e in dom.get(mb, ()) for e in evb) for mb in mapb)
-        r.instance(function=nid, evicts_before_map_access=ok)
-        if not ok:
+        ctx.body(nid)
+        paths = [p for p in _run(ctx, nid, inline_depth=3, loop_visits=2, inline_pred=lambda n_, bb, d: False if n_ in (ev, exp) else None) if not p.diverged]
+        ok_all, order_ok = True, True
+        for p in paths:
+            idx_ev = [i for i, e in enumerate(p.events) if e[0] == 'call' and e[1] == ev]
+            idx_exp = [i for i, e in enumerate(p.events) if e[0] == 'call' and e[1] == exp]
+            idx_map = [i for i, e in enumerate(p.events) if e[0] == 'call' and str(e[1]).startswith('std::collections::HashMap::')]
+            if not idx_ev or (idx_map and idx_map[0] < idx_ev[0]):
+                ok_all = False
+            if idx_ev and idx_exp and idx_exp[0] > idx_ev[0]:
+                order_ok = False
+        r.instance(function=nid, paths=len(paths), evicts_before_map_access=ok_all, expires_before_evicting=order_ok)
+        if not ok_all:
             r.violate(nid, 'no-eviction', 'evict_lru_entries', '%s does not run the over-capacity eviction before its own work on every path' % nid, where=ctx.where(nid))
+        if not order_ok:
+            r.violate(nid, 'evict-before-expire', 'order', '%s runs the over-capacity eviction before the expiry step: the excess is computed while expired entries still count, so a live '
+                      'least-recently-used entry is evicted although removing the expired ones would have restored the bound' % nid, where=ctx.where(nid),
+                      expected='evict_expired_if_needed(); evict_lru_entries();')
     if R.maintenance:
         WTE, EVL = named(ctx, 'sync.weights_to_evict'), named(ctx, 'sync.evict_lru')
         for m in sorted(R.maintenance):
@@ -647,9 +667,9 @@ def rule_must_recency(ctx):
     # sync: read consumer + update arm
     if R.maintenance:
         cons = [x for x in prog.reachable_from(sorted(R.maintenance)) if x.startswith('sync::') and prog.bodies[x].kind != 'closure' and
-                bool(CHAN_RECV & set(R.ext_calls[x]))]
+                recv_types(ctx, x)]
         for c in sorted(cons):
-            is_read = any('ReadOp' in t.get('self_ty', {}).get('s', '') for _, t in prog.bodies[c].calls() if prog.call_targets(prog.bodies[c], t)[1] in CHAN_RECV)
+            is_read = 'ReadOp' in recv_types(ctx, c)
             if not is_read:
                 continue
             for p in _run(ctx, c, inline_depth=3, loop_visits=2):
@@ -680,7 +700,7 @@ def rule_must_recency(ctx):
         EI = 'common::concurrent::entry_info::EntryInfo'
         ts_writers = {x for x in prog.bodies if any(('write', a_, f_) in ctx.eff.direct.get(x, ()) for a_, f_ in sync_ts_fields(ctx) if ts_name_kind(f_) == 'ao')}
         for c in sorted(cons):
-            is_read = any('ReadOp' in t.get('self_ty', {}).get('s', '') for _, t in prog.bodies[c].calls() if prog.call_targets(prog.bodies[c], t)[1] in CHAN_RECV)
+            is_read = 'ReadOp' in recv_types(ctx, c)
             if not is_read:
                 continue
             for p in _run(ctx, c, inline_depth=1, loop_visits=2, inline_pred=lambda n_, bb, d: False):
